@@ -225,6 +225,17 @@ class C09(Property):
             # some of them holding the definitions that a registered brick offers
             fam = c11.gen_upgrade_chain(rng) if i % 4 == 3 else c11.gen_family(rng)[0]
             yield {'kind': 'ontologies', 'onts': fam, 'brick': [rng.random() < 0.5 for _ in fam], 'defs': []}
+        for i in range(10 if tier == 'quick' else 200):
+            # an object type with a unit whose prefix radix is the default, written out or left out, next to another radix
+            a = G.base_objecttype()
+            a['dataType'] = 'number:int'
+            a['free']['unit-name'], a['free']['unit-symbol'] = 'meter', 'm'
+            b = json.loads(json.dumps(a))
+            b['free']['prefix-radix'] = 10
+            c = json.loads(json.dumps(a))
+            c['free']['prefix-radix'] = rng.choice([2, 60, None, 10])
+            c['version'] = rng.choice([1, 2])
+            yield {'kind': 'objecttype', 'defs': [a, b, c]}
         for kind in G.KINDS:
             for i in range(n if kind != 'eventtype' else 2 * n):
                 a = G.base_of(kind)
